@@ -37,3 +37,10 @@ PROP = {
         "blocks are abstract (token, index, last); the receiver's assembler is the abstract image of the C17 assembler on in-sequence blocks addressed to us, without T4 (C17 covers addressing, T4 and byte-level reassembly); consecutive messages of one direction carry distinct tokens (distinct system bytes)",
     ],
 }
+
+
+MANIFEST = {
+    "text": "PARTIAL (safety only). Coq theorems over ALL runs, interleavings, fault patterns the E4 checksum/handshake detects, retry limits, queue contents and simultaneous sends of a two-engine (master/slave) LTS on a synchronous lossy line: the delivered sequence at each end is a duplicate-free, order-preserving image of the sequence successfully sent by the other (exactly-once, intact, in order); a block is attempted at most retry+1 times; the master never yields, the slave yields and its postponed send follows; no reachable state is a deadlock (56-state control skeleton closed by vm_compute + data invariants); byte-level fault classes (intact / corrupt / truncated / lengthened) via the C17 block theorems; the model's receiver is proved to be the abstraction of the C17 assembler. Tied by the REAL lineIO.sendBlock/receiveBlock over a simulated conn in virtual time replayed label by label in the extracted LTS (equal character traces), and by two real endpoints through a fault-injecting middlebox judged by the extracted monitor. One defect found (blocks acknowledged after the engine's own send had failed were lost) and repaired in the code (fix 2852a07).",
+    "note": "PARTIAL: safety only — 'the send fails and the link is re-established' (liveness) is observed, not proved; modelling assumptions: no stale characters (synchronous line: a timeout is enabled only when nothing is in flight), T1 < T2, only E4-detectable faults (a NAK replaced by ACK is outside E4's detection, exhibited as a witness).",
+    "technique": 'Rocq/Coq proof (LTS invariants, finite control skeleton closed by vm_compute) + correspondence replay of the real line engine in virtual time + e2e middlebox judged by the extracted monitor',
+}
